@@ -85,7 +85,7 @@ class MCMC(Identifiable, Runnable):
 
             hastings_ratio = operator.step()
 
-            if torch.isinf(hastings_ratio):
+            if torch.isinf(hastings_ratio) or torch.isnan(hastings_ratio):
                 log_alpha = torch.tensor(torch.finfo(hastings_ratio.dtype).min)
                 acceptance_prob = torch.zeros_like(hastings_ratio)
                 accepted = False
